@@ -544,6 +544,35 @@ def r_data_movement_table(ctx, F):
             ctx.violation("no-model|%s" % t, "stdlib/asm/math", "no data-movement model for %s" % t)
 
 
+def r3_locals(ctx, F):
+    """no math procedure reads a procedure local before writing it in the same activation (same analysis as C17-R1)"""
+    from . import rules_c17
+    ar = rules_c17.arity_table()
+    n = 0
+    for path in (U64, U256):
+        M = Module(path)
+        for name in M.order:
+            p = M.procs[name]
+            if not p.exported:
+                continue
+            key = "%s::%s" % (os.path.basename(path)[:-5], name)
+            fl = rules_c17.Flow(M, ar)
+            try:
+                fl.run(p, [rules_c17.U] * 48, fl.new_frame(), set())
+            except (Undecided, MasmError) as e:
+                ctx.inst(key=key, nontrivial=False)
+                ctx.analysed("%s: not analysed (%s)" % (key, str(e)[:100]))
+                continue
+            ctx.inst(key=key, nontrivial=fl.reads > 0)
+            n += 1
+            ev = sorted(set((e[1], e[3]) for e in fl.events))
+            ctx.oblig(not ev)
+            for where, what in ev:
+                ctx.violation("local-read-before-write|%s|%s|%s" % (key, where.split(" ")[0], what), "%s:%d" % (path.replace("/repo/", ""), p.line),
+                              "%s: %s in %s reads a procedure local that this activation has not written" % (key, what, where))
+    ctx.floor("math-procedures-analysed", n, 30)
+
+
 def run(ctx, F):
     ctx.trusted += ["vlib/masm.py: MASM parser and integer model of the u32 instructions (identities of docs/src/user_docs/assembly/u32_operations.md, written out in the file)",
                     "data-movement semantics: the table that C05 validates against the assembler and the operation handlers",
@@ -552,4 +581,5 @@ def run(ctx, F):
     ctx.assumptions += ["inputs are u32 limbs (stated as assumed by the procedures' documentation)", "shifts, rotations, bit counts and u256::mul_unsafe are not decided (listed in the evidence)"]
     ctx.run_rule("C16-R0", "every data-movement instruction used in the analysed files has a C05-validated model", r_data_movement_table, F)
     ctx.run_rule("C16-R1", "u64 procedures compute their documented results for all operands (integer polynomial identities / order enumeration / implied division identity) and keep the rest of the stack", run_u64, F)
+    ctx.run_rule("C16-R3", "no math procedure reads a procedure local before writing it (history independence)", r3_locals, F)
     ctx.run_rule("C16-R2", "u256 procedures compute the functions their names state for all operands and keep the rest of the stack", run_u256, F)
